@@ -54,7 +54,7 @@ PROPS["C01"] = {
                 bounds="array `ah` of two descriptors (same or distinct, symbolic), byte order symbolic, offset as named; dup(2) stubbed",
                 asserts="indices are u32 positions in the attached list in message byte order; duplicates share one slot; attached count")
               for n in ["c01_enc_ah_p0", "c01_enc_ah_p2"]] +
-             [H(n, "thorough", timeout=2400, cost=700, recursion_bounds=REC1, mem_gb=24,
+             [H(n, "thorough", timeout=2400, cost=700, recursion_bounds=REC1, mem_gb=24, rss_gb=14,
                 bounds="struct (yu) with symbolic fields, byte order symbolic, message offset as named",
                 asserts="bytes and length == spec marshaller (8-byte struct alignment, member alignment)")
               for n in ["c01_enc_yu_p0", "c01_enc_yu_p5"]]),
@@ -67,8 +67,8 @@ PROPS["C01"] = {
 
 # ------------------------------------------------------------------ C02
 PROPS["C02"] = {
-    "bounds": "numeric leaf signatures y b n q i u x t d (every value) and the empty string, D-Bus and GVariant, message offsets 0..7, both byte orders",
-    "outside": "non-empty strings (2 symbolic text bytes already exceed 16 GB in the combined encode+decode query; their encoding and decoding are decided separately in C01/C03), containers, HashMap, Option/maybe, derived structs/enums, Value/OwnedValue (container decoding does not fit, DESIGN.md 9.5)",
+    "bounds": "numeric leaf signatures y b n q i u x t d (every value), D-Bus and GVariant, message offsets 0..7, both byte orders; strings of exactly 0, 1 and 3 symbolic ASCII bytes in both formats (one cell per length x byte order)",
+    "outside": "strings longer than 3 bytes / non-ASCII text, containers, HashMap, Option/maybe, derived structs/enums, Value/OwnedValue (container decoding does not fit, DESIGN.md 9.5)",
     "assumptions": [FMT_STUB, CLOSE_STUB, FORGET, RECB],
     "level_text": "Bounded model checking of encode followed by decode on the compiled code: for every value of each leaf type, offset and byte order the solver proves the decoded value equals the original and the decoder consumed exactly the encoded length, in both wire formats.",
     "level_note": "bounded to leaf signatures; trusts Kani/CBMC and the stubs listed in assumptions",
@@ -77,23 +77,23 @@ PROPS["C02"] = {
              [H("c02_rt_dbus_%s" % t, "quick" if t in "ud" else "thorough", timeout=1500, cost=200, recursion_bounds=REC1,
                 bounds="value symbolic; offset 0..7; byte order symbolic; 16-byte buffer",
                 asserts="decode(encode(v)) == v (bitwise for f64) and consumed == encoded length") for t in "ybnqiuxtd"] +
-             [H("c02_rt_dbus_s_n%d" % n, "thorough", timeout=1800, cost=300, recursion_bounds=REC1, mem_gb=16,
-                bounds="text of exactly %d symbolic ASCII byte(s); message offset %d; byte order symbolic; from_utf8/memchr byte-loop stubs" % (n, 0 if n == 0 else 1),
-                asserts="round trip text and consumed length") for n in (0,)]),
+             [H("c02_rt_dbus_s_n%d_%s" % (n, e), "quick" if (n, e) == (3, "be") else "thorough", timeout=1800, cost=100, recursion_bounds=REC1, mem_gb=16,
+                bounds="text of exactly %d symbolic ASCII byte(s); message offset %d; %s-endian (concrete per cell); from_utf8/memchr byte-loop stubs" % (n, {0: 0, 1: 3, 3: 1}[n], e),
+                asserts="round trip text and consumed length") for n in (0, 1, 3) for e in ("le", "be")]),
         dict(ZV_GV, harnesses=
              [H("c02_rt_gv_%s" % t, "quick" if t in "u" else "thorough", timeout=1500, cost=200, recursion_bounds=REC1,
                 bounds="GVariant; value symbolic; offset 0..7; byte order symbolic",
                 asserts="decode(encode(v)) == v and consumed == encoded length") for t in "ybqutd"] +
-             [H("c02_rt_gv_s_n%d" % n, "thorough", timeout=1800, cost=300, recursion_bounds=REC1, mem_gb=16,
-                bounds="GVariant; text of exactly %d symbolic ASCII byte(s); message offset %d; byte order symbolic; from_utf8/memchr byte-loop stubs" % (n, 0 if n == 0 else 1),
-                asserts="round trip text and consumed length") for n in (0,)]),
+             [H("c02_rt_gv_s_n%d_%s" % (n, e), "quick" if (n, e) == (0, "le") else "thorough", timeout=1800, cost=100, recursion_bounds=REC1, mem_gb=16,
+                bounds="GVariant; text of exactly %d symbolic ASCII byte(s); message offset %d; %s-endian (concrete per cell); from_utf8/memchr byte-loop stubs" % (n, {0: 0, 1: 3, 3: 1}[n], e),
+                asserts="round trip text and consumed length") for n in (0, 1, 3) for e in ("le", "be")]),
     ],
 }
 
 # ------------------------------------------------------------------ C03
 PROPS["C03"] = {
-    "bounds": "fixed-size leaf signatures on 16 arbitrary bytes (length 0..=16, offset 0..7, both byte orders); strings on 8 arbitrary bytes per offset 0..3",
-    "outside": "object paths through bytes (typed ObjectPath decode of 7 symbolic bytes times out at 1500 s; the grammar itself is C10), arrays, structs, dicts, variants, the dynamic Value target (ValueSeed path: times out at 1500 s even for leaf signatures), depth limits through bytes (do not fit, DESIGN.md 9.5); strings longer than 3 bytes",
+    "bounds": "fixed-size leaf signatures on 16 arbitrary bytes (length 0..=16, offset 0..7, both byte orders); strings on 8 arbitrary bytes per offset 0..3; struct (yu) on 8/11 arbitrary bytes at offsets 0 and 5, each byte order; arrays ay aq au at on 6..14 arbitrary bytes (cells: offset x byte order)",
+    "outside": "object paths through bytes (typed ObjectPath decode of 7 symbolic bytes times out at 1500 s; the grammar itself is C10), arrays of containers, structs other than the (yu) cells, dicts, variants, the dynamic Value target (ValueSeed path: times out at 1500 s even for leaf signatures), depth limits through bytes (do not fit, DESIGN.md 9.5); strings longer than 3 bytes",
     "assumptions": [FMT_STUB, CLOSE_STUB, FORGET, RECB],
     "level_text": "Bounded model checking of the real D-Bus deserializer on fully symbolic input buffers against an independent validating reader written from the specification: acceptance, decoded value and consumed count must agree for every byte string within the bound (zero padding, BOOLEAN 0/1, string length inside the buffer, NUL terminator, interior NUL, UTF-8).",
     "level_note": "bounded to leaf signatures; core::str::from_utf8 and memchr are replaced by byte-loop specifications in the text harnesses (trusted equivalence, checked natively on every run)",
@@ -106,7 +106,13 @@ PROPS["C03"] = {
                 bounds="8 symbolic bytes, length 0..=8 symbolic, message offset %d, byte order symbolic, unwind 10; core::str::from_utf8 and memchr replaced by byte-loop specifications" % p,
                 asserts="Ok iff the spec reader accepts (zero padding, length inside buffer, NUL terminator, no interior NUL, UTF-8, path grammar); equal text and consumed count") for (t, p) in [("s", 0), ("s", 1), ("s", 2), ("s", 3)]] +
 
-             []),
+             [H("c03_dec_yu_p%d_%s" % (p, e), "thorough", timeout=2400, cost=300, recursion_bounds=REC1, mem_gb=20, rss_gb=12,
+                bounds="struct (yu) on %d arbitrary bytes at message offset %d, %s-endian (byte order concrete per cell)" % (8 if p == 0 else 11, p, "big" if e == "be" else "little"),
+                asserts="Ok iff zero struct padding and zero member padding; fields and consumed count equal the wire") for p in (0, 5) for e in ("le", "be")] +
+             [H("c03_dec_%s_%s" % (c, e), "quick" if (c, e) == ("au_p0", "le") else "thorough", timeout=2400, cost=500, recursion_bounds=REC1, mem_gb=24, rss_gb=18,
+                bounds="array cell %s on a fully symbolic buffer (exact length 6..14 bytes), %s-endian (byte order and offset concrete per cell)" % (c, "big" if e == "be" else "little"),
+                asserts="Ok iff zero padding (also before the first element when empty), byte length inside the buffer and on an element boundary; equal count, elements, consumed")
+              for c in ("ay_p0", "ay_p3", "aq_p0", "au_p0", "au_p2", "at_p4") for e in ("le", "be")]),
     ],
 }
 
@@ -200,8 +206,6 @@ PROPS["C08"] = {
         H("c08_laws_s", "thorough", timeout=1800, cost=200, mem_gb=16, bounds="three Value::Str of 0..=2 symbolic ASCII bytes", asserts="all laws on strings"),
         H("c08_laws_s_o", "thorough", timeout=1800, cost=200, mem_gb=16, bounds="Value::Str vs Value::ObjectPath of 0..=2 symbolic bytes", asserts="never equal; ordering laws"),
         H("c08_laws_nested_u", "thorough", timeout=1800, cost=200, mem_gb=16, bounds="three Value::Value(Value::U32), every payload", asserts="all laws one level deep; signature is 'v'"),
-        H("c08_array_conversions_y", "thorough", timeout=2400, cost=400, mem_gb=16, bounds="two symbolic u8 elements; Array from &[u8] and from Vec<u8>", asserts="equal arrays; every element has the array's element signature"),
-        H("c08_array_conversions_v", "thorough", timeout=2400, cost=400, mem_gb=16, bounds="two Value::U8 elements; Array from &[Value] and from Vec<Value>", asserts="equal arrays; element signature 'v'; every element has it"),
         H("c08_clone_y", "thorough", timeout=1800, cost=150, mem_gb=16, bounds="Value::U8, every payload", asserts="try_clone preserves == and signature; value_signature == variant's signature"),
         H("c08_clone_x", "thorough", timeout=1800, cost=150, mem_gb=16, bounds="Value::I64, every payload", asserts="as above"),
         H("c08_clone_d", "thorough", timeout=1800, cost=150, mem_gb=16, bounds="Value::F64, every non-NaN payload", asserts="as above"),
@@ -305,9 +309,15 @@ PROPS["PROBE12"] = {"claimed": False, "groups": [dict(ZB_INCRATE, in_crate_file=
 PROPS["PROBE15"] = {"claimed": False, "groups": [dict(ZB_INCRATE, in_crate_file="zbus_address.rs", harnesses=[
     H("c10_guid_plain", timeout=2400, mem_gb=20, inline_mod="guid_c10"), H("c10_guid_uuid_forms", timeout=2400, mem_gb=20, inline_mod="guid_c10")])]}
 PROPS["PROBE16"] = {"claimed": False, "groups": [dict(ZV, harnesses=[
-    H("c01_enc_ayu_p0", timeout=3000, mem_gb=28, recursion_bounds=REC1), H("c01_enc_v_u_p0", timeout=3000, mem_gb=28)])]}
+    H("c03_dec_au_p0_le", timeout=3000, mem_gb=20, recursion_bounds=REC1), H("c01_enc_ayu_p4_le", timeout=3000, mem_gb=20, recursion_bounds=REC1), H("c01_enc_v_u_p3_be", timeout=3000, mem_gb=20)])]}
 PROPS["PROBE17"] = {"claimed": False, "groups": [dict(ZV, harnesses=[
-    H("c03_dec_yu_p0", timeout=3000, mem_gb=24, recursion_bounds=REC1), H("c03_dec_yu_p5", timeout=3000, mem_gb=24, recursion_bounds=REC1)])]}
+    H("c03_dec_yu_p0_le", timeout=3000, mem_gb=20, recursion_bounds=REC1), H("c03_dec_yu_p5_be", timeout=3000, mem_gb=20, recursion_bounds=REC1)])]}
+PROPS["PROBE18"] = {"claimed": False, "groups": [dict(ZV, harnesses=[
+    H("c03_dec_a_y1_le", timeout=3000, mem_gb=24, recursion_bounds=REC1)])]}
+PROPS["PROBE19"] = {"claimed": False, "groups": [dict(ZV_GV, harnesses=[
+    H("c05_enc_mu_p1_le", timeout=3000, mem_gb=20, recursion_bounds=REC1), H("c02_rt_gv_s_n2_le", timeout=3000, mem_gb=20, recursion_bounds=REC1), H("c02_rt_dbus_s_n2_le", timeout=3000, mem_gb=20, recursion_bounds=REC1)])]}
+PROPS["PROBE20"] = {"claimed": False, "groups": [dict(ZV, harnesses=[
+    H("c03_dyn_o_p0_le", timeout=3000, mem_gb=20, recursion_bounds=REC1)])]}
 PROPS["PROBE8"] = {"claimed": False, "groups": [dict(ZV_INCRATE, harnesses=[
     H("c07_site_de_variant", timeout=2400, mem_gb=20), H("c07_site_ser_struct", timeout=2400, mem_gb=20), H("c07_site_ser_array", timeout=2400, mem_gb=20),
     H("c07_site_de_struct", timeout=2400, mem_gb=20), H("c07_site_de_array", timeout=2400, mem_gb=20)])]}
@@ -359,4 +369,4 @@ NOT_APPLICABLE = {
 PROPS["PROBE13"] = {"claimed": False, "groups": [dict(ZB_INCRATE, in_crate_file="zbus_message.rs", harnesses=[
     H("c21_ns_a", timeout=2400, mem_gb=20)])]}
 PROPS["PROBE14"] = {"claimed": False, "groups": [dict(ZB_INCRATE, in_crate_file="zbus_header.rs", harnesses=[
-    H("c12_primary_header_total", timeout=3600, mem_gb=30, recursion_bounds=REC1)])]}
+    H("c13_header_known_sets_exact", timeout=3600, mem_gb=30, recursion_bounds=REC1), H("c13_unknown_flags_witness", timeout=3600, mem_gb=30, recursion_bounds=REC1)])]}
